@@ -24,6 +24,9 @@ def is_err(x):
 # ---------------------------------------------------------------------------
 # JSON-like values <-> sx / Coq terms
 # ---------------------------------------------------------------------------
+KEYCODE = {"data": 0, "data_id": 1, "children": 2}
+
+
 def jv_sx(v):
     if v is None:
         return [0]
@@ -36,7 +39,7 @@ def jv_sx(v):
     if isinstance(v, list):
         return [4, [jv_sx(x) for x in v]]
     if isinstance(v, dict):
-        return [5, [[str(k), jv_sx(x)] for k, x in v.items()]]
+        return [5, [[KEYCODE.get(k, str(k)), jv_sx(x)] for k, x in v.items()]]
     raise TypeError(f"not a JSON-like value: {v!r}")
 
 
@@ -344,6 +347,26 @@ class Prop:
                     break
         # (5) hand-written / malformed inputs of from_dict
         yield from LOADS
+        # (6) Node.from_dict into a node of an existing tree (with and without calc_data_id hook)
+        items_pool = [
+            [{"data": "a"}],
+            [{"data": "a"}, {"data": "b", "children": [{"data": "a"}, {"data": "n0"}]}],
+            [{"data": "a", "data_id": 0}, {"data": "a", "data_id": ""}, {"data": "b", "data_id": "n1"}],
+            [{"data": "n0"}, {"data": "n0", "data_id": "n0"}],
+            [{"data": "a"}, {"data": "b", "children": [{"data": "c"}, {"data": "c"}]}],
+            [],
+        ]
+        for n in (1, 2, 3) if tier == "quick" else (1, 2, 3, 4):
+            for shape in H.forests(n):
+                for calc in (None, "name", "mod7"):
+                    for into in range(n):
+                        for ii, items in enumerate(items_pool):
+                            if tier == "quick" and (ii + into + n) % 2:
+                                continue
+                            d = dict(univ=[f"s:n{i}" for i in range(n)] , calc=calc, into=into, items=items,
+                                     nodes=B.shape_to_nodes(shape, lambda i, dp, s: (i, None, None)))
+                            if ok(d):
+                                yield d
 
     @staticmethod
     def patterns():
@@ -363,7 +386,7 @@ class Prop:
         ]
 
     def shrink_candidates(self, desc):
-        if "load" in desc:
+        if "load" in desc or "into" in desc:
             return
         for nodes in B.drop_one_node(desc["nodes"]):
             yield dict(desc, nodes=nodes)
@@ -374,6 +397,8 @@ class Prop:
     def run(self, desc) -> Case:
         if "load" in desc:
             return self.run_load(desc)
+        if "into" in desc:
+            return self.run_into(desc)
         tree, U = B.build(desc)
         apply_prep(tree, desc.get("prep"))
         kind = desc.get("sm", "none")
@@ -383,7 +408,7 @@ class Prop:
         smd = coq_smd(kind, U, nodes)
 
         dump = call(lambda: tree.to_dict_list(mapper=ser))
-        subs = nodes if len(nodes) <= 6 else [nodes[0], nodes[len(nodes) // 2], nodes[-1]]
+        subs = nodes if len(nodes) <= 2 else [nodes[len(nodes) // 2], nodes[-1]]
         sub_dumps = [call(lambda n=n: n.to_dict(mapper=ser)) for n in subs]
         stats = dict(nodes=len(nodes), depth=B.nodes_depth(desc["nodes"]), mapper=kind, prep=str(desc.get("prep")),
                      custom_ids=sum(1 for n in nodes if n._data_id != hash(n._data)),
@@ -427,6 +452,93 @@ class Prop:
         n = len(item_dicts(obj))
         return Case(desc=desc, coq_input=coq_input, impl_obs=obs, oracle_fail=fail, nontrivial=n >= 3, key=H.digest(desc),
                     stats=dict(nodes=n, mapper="load", rebuilt="error" if is_err(rebuilt) else "ok"))
+
+    def run_into(self, desc) -> Case:
+        """Node.from_dict(items) on the node with pre-order index desc['into'] of an existing tree"""
+        tree, U = B.build(desc)
+        nodes = B.all_nodes(tree._root)
+        target = nodes[desc["into"]]
+        obj = desc["items"]
+        before = [(n, n._parent, list(n._children or []), n._data, n._data_id) for n in nodes]
+        finput = H.coq_forest(tree._root, U)
+        dt = coq_dtable(obj, "none", U)
+        nxt = H.alloc_count()
+        r = call(lambda: target.from_dict(json.loads(json.dumps(obj))))
+        obs = [obs_rebuilt(r if is_err(r) else tree, U)]
+        calc = {None: 0, "name": 1, "mod7": 2}[desc.get("calc")]
+        coq_input = (f"(CNode {finput} {calc} {H.nid(target)} {H.coq_list(jv_coq(x) for x in obj)} {dt} {nxt})")
+        fail = self.oracle_into(tree, desc, target, obj, before, r)
+        return Case(desc=desc, coq_input=coq_input, impl_obs=obs, oracle_fail=fail, nontrivial=len(nodes) + len(item_dicts(obj)) >= 3,
+                    key=H.digest(desc), stats=dict(nodes=len(nodes), mapper="into", rebuilt="error" if is_err(r) else "ok"))
+
+    def oracle_into(self, tree, desc, target, obj, before, r):
+        calc = B.calc_fn(desc.get("calc"))
+
+        def eff(d):
+            if d.get("data_id") is not None:
+                return d["data_id"]
+            return calc(tree, d["data"]) if calc else hash(d["data"])
+
+        def collision(dl):
+            ids = []
+            for d in dl:
+                e = eff(d)
+                if any(e == x and type(e) is type(x) for x in ids):
+                    return True
+                ids.append(e)
+                if d.get("children") and collision(d["children"]):
+                    return True
+            return False
+
+        had_children = bool(next(b for b in before if b[0] is target)[2])
+        if had_children:
+            if not (is_err(r) and r[1] == 6):
+                return "Node.from_dict: target with children not refused"
+        elif collision(obj):
+            if not (is_err(r) and r[1] == 1):
+                return "Node.from_dict: duplicate sibling data_id not refused with UniqueConstraintError"
+            return None
+        elif is_err(r):
+            return f"Node.from_dict: raised {H.ERR_NAMES.get(r[1])} on a well-formed input"
+        # the rest of the tree is untouched (by identity)
+        for n, p, ch, data, did in before:
+            if n._parent is not p or n._data is not data or n._data_id != did:
+                return f"Node.from_dict: node {H.nid(n)} outside the target changed"
+            if n is not target or had_children:
+                now = list(n._children or [])
+                if len(now) != len(ch) or any(a is not b for a, b in zip(now, ch)):
+                    return f"Node.from_dict: children of node {H.nid(n)} changed"
+        if had_children:
+            return None
+
+        def same(dl, rc, parent, where):
+            if len(dl) != len(rc):
+                return f"Node.from_dict shape: {where}"
+            for k, (d, x) in enumerate(zip(dl, rc)):
+                if x._parent is not parent or x._tree is not tree:
+                    return f"Node.from_dict pointers: {where}/{k}"
+                if x._data != d["data"] or type(x._data) is not type(d["data"]):
+                    return f"Node.from_dict data: {where}/{k}"
+                if x._data_id != eff(d) or type(x._data_id) is not type(eff(d)):
+                    return f"Node.from_dict data_id: {where}/{k}: {x._data_id!r} expected {eff(d)!r}"
+                e = same(d.get("children") or [], x._children or [], x, f"{where}/{k}")
+                if e:
+                    return e
+            return None
+
+        e = same(obj, target._children or [], target, "")
+        if e:
+            return e
+        # the tree's index sees old and new nodes of one data_id as one clone group
+        alln = B.all_nodes(tree._root)
+        if tree.count != len(alln):
+            return f"Node.from_dict: tree counts {tree.count}, {len(alln)} reachable"
+        for n in alln:
+            grp = {id(x) for x in tree.find_all(data_id=n._data_id)}
+            exp = {id(x) for x in alln if x._data_id == n._data_id and type(x._data_id) is type(n._data_id)}
+            if grp != exp:
+                return f"Node.from_dict clones: group of node {H.nid(n)} has {len(grp)} members, expected {len(exp)}"
+        return None
 
     # ------------------------------------------------------------------
     # Oracle: written from the property statement; walks _children pointers.
